@@ -193,6 +193,7 @@ Definition astep (w : aw) (line : string) : aw * list string :=
           end
       | _, _, _ => (w, ["BAD " +:+ line])
       end
+  | ["LT"; _] => (w, [])    (* a leftover temporary preamble of an earlier crash: the rewrite creates (truncates) its own *)
   | ["TORN"] =>
       let all := log_bytes w in
       let n := (length all - aw_before w)%nat in
